@@ -123,9 +123,9 @@ func c01DecisionTable(c *Ctx, rule string) {
 	}
 	// constructs
 	type construct struct {
-		name    string
-		at      func(in ssa.Instruction) bool
-		oracle  func(a map[string]bool) bool
+		name   string
+		at     func(in ssa.Instruction) bool
+		oracle func(a map[string]bool) bool
 	}
 	eff := func(a map[string]bool) bool {
 		if !a["auth0"] && a["isDS"] && a["notRoot"] {
